@@ -201,20 +201,42 @@ func c18Turn(rec *c18Rec, vs []s2.Point, cls, desc string, rnd *rand.Rand) {
 	rots := []emb.Key{}
 	cans := [][2]int{}
 	areas := []emb.Key{}
+	cens := [][3]emb.Key{}
+	areaTxt := ""
 	for _, k := range ks {
 		l := s2.LoopFromPoints(c18Rot(vs, k))
 		rots = append(rots, c18K(l.TurningAngle()))
 		cans = append(cans, c18Canon(l, idx))
 		areas = append(areas, c18K(l.Area()))
+		cens = append(cens, c18K3(l.Centroid().Vector))
+		if len(ks) <= 12 {
+			areaTxt += fmt.Sprintf(" start %d: area %v centroid %v;", k, l.Area(), l.Centroid().Vector)
+		}
 	}
 	li := s2.LoopFromPoints(c18Clone(vs))
 	li.Invert()
 	lr := s2.LoopFromPoints(c18Rev(vs))
 	tol := c18AreaTol(2*n, math.Min(area, 4*math.Pi-area))
-	rec.add(sub, cls, desc, map[string]any{"ev": "turn", "n": n, "ta": c18K(ta), "nta": c18K(-ta), "rots": rots,
-		"inv": c18K(li.TurningAngle()), "rev": c18K(lr.TurningAngle()),
-		"can": c18Canon(base, idx), "cans": cans, "caninv": c18Canon(li, idx),
-		"areas": areas, "alo": c18K(area - tol), "ahi": c18K(area + tol)})
+	// the centroid (integral of position) is a sum of one TrueCentroid per triangle; the complement's is its negation
+	cen := base.Centroid().Vector
+	// No error bound is documented for TrueCentroid; it is ill-conditioned for edges near 180 degrees (error
+	// ~ eps/gap^2 where gap = pi - edge length, "not much we can do if the loop itself contains such edges"):
+	// a gross-error detector.
+	gap := math.Pi
+	for i := range vs {
+		gap = math.Min(gap, math.Pi-float64(vs[i].Distance(vs[(i+1)%n])))
+	}
+	ctol := 1e-9 + 1e-14/(gap*gap)
+	rec.add(sub, cls, fmt.Sprintf("%s: start 0: area %v centroid %v turning angle %v;%s", desc, area, cen, ta, areaTxt),
+		map[string]any{"ev": "turn", "n": n, "ta": c18K(ta), "nta": c18K(-ta), "rots": rots,
+			"inv": c18K(li.TurningAngle()), "rev": c18K(lr.TurningAngle()),
+			"can": c18Canon(base, idx), "cans": cans, "caninv": c18Canon(li, idx),
+			"areas": areas, "alo": c18K(area - tol), "ahi": c18K(area + tol),
+			"cens": cens, "cinv": c18K3(li.Centroid().Vector.Mul(-1)),
+			"celo": [3]emb.Key{c18K(cen.X - ctol), c18K(cen.Y - ctol), c18K(cen.Z - ctol)},
+			"cehi": [3]emb.Key{c18K(cen.X + ctol), c18K(cen.Y + ctol), c18K(cen.Z + ctol)},
+			// Gauss-Bonnet for the base order
+			"gblo": c18K(2*math.Pi - area - c18TurnErr(n) - tol), "gbhi": c18K(2*math.Pi - area + c18TurnErr(n) + tol)})
 	rec.o.CountN("rotations_compared", len(ks))
 	// Area(loop) + Area(inverse) against 4*pi
 	sum := area + li.Area()
@@ -664,6 +686,50 @@ func opC18Rand(raw json.RawMessage, o *Out) {
 			desc := fmt.Sprintf("star-shaped loop centre %v radius <= %v n=%d", ctr, rad, n)
 			c18Turn(rec, vs, "loop/star", desc, rnd)
 			c18Area(rec, vs, "loop/star", desc, 2*math.Pi, 2*math.Pi, nil, nil, false)
+		case "antipodal":
+			// Loops built from the branch conditions of Loop.surfaceIntegral*: with the fan started at vertex 0
+			// a later vertex is within 1e-5 of the antipode of the current fan origin, which moves the origin
+			// (1) to V0 x Vi, (2) back to V0, or (3), when V0/Vi and O/Vi+1 are both antipodal pairs, to V0 x O.
+			// Templates in degrees (lat, lng) in a seed-chosen frame; "crit" vertices are placed within
+			// delta of the exact antipode.  Every rotation of the vertex order starts the fan elsewhere.
+			type tv struct {
+				lat, lng float64
+				crit     bool
+			}
+			tmpl := [][]tv{
+				{{0, 0, false}, {5, 20, false}, {0, 50, false}, {0, 180, true}, {-90, 0, true}, {-30, -40, false}},                     // branches 1 and 3
+				{{0, 0, false}, {0, 50, false}, {0, 180, true}, {-90, 0, true}, {-30, -40, false}},                                     // 1 and 3, a = 1
+				{{0, 0, false}, {5, 20, false}, {0, 50, false}, {0, 180, true}, {-45, -120, false}, {-30, -40, false}},                 // branch 1 only
+				{{0, 0, false}, {5, 20, false}, {0, 50, false}, {0, 180, true}, {-45, -120, false}, {-90, 0, true}, {-30, -40, false}}, // 1 then 2
+				{{0, 0, false}, {0, 60, false}, {0, 120, false}, {0, 180, true}, {0, -120, false}, {0, -60, false}},                    // six points on a great circle
+				{{0, 0, false}, {-5, 20, false}, {0, 50, false}, {0, 180, true}, {90, 0, true}, {30, -40, false}},                      // mirror image of the first
+				{{0, 0, false}, {5, 20, false}, {0, 50, false}, {0, 180, true}, {-90, 0, true}, {-30, -40, false}, {-10, -30, false}, {-5, -10, false}},
+				{{10, 0, false}, {0, 30, false}, {-10, 180, true}, {-80, 90, false}, {-20, -60, false}}, // antipode of a vertex off the frame axes
+			}
+			t := tmpl[rnd.Intn(len(tmpl))]
+			delta := []float64{0, 1e-12, 1e-7, 3e-6, 9e-6, 9.9e-6, 1.5e-5}[rnd.Intn(7)]
+			jit := []float64{0, 0, 1e-9, 1e-3, 1e-2}[rnd.Intn(5)]
+			fx := ctr
+			fy := s2.Point{Vector: ctr.Ortho()}
+			fz := s2.Point{Vector: fx.Cross(fy.Vector).Normalize()}
+			var vs []s2.Point
+			for _, v := range t {
+				p := s2.PointFromLatLng(s2.LatLngFromDegrees(v.lat, v.lng))
+				d := jit
+				if v.crit {
+					d = delta
+				}
+				if d > 0 {
+					p = s2.Point{Vector: p.Add(c18RandPoint(rnd).Mul(d * rnd.Float64())).Normalize()}
+				}
+				vs = append(vs, s2.Point{Vector: fx.Mul(p.X).Add(fy.Mul(p.Y)).Add(fz.Mul(p.Z)).Normalize()})
+			}
+			if rnd.Intn(2) == 0 {
+				vs = c18Rev(vs)
+			}
+			desc := fmt.Sprintf("antipodal-origin template %v critical vertices within %g of the antipode, jitter %g, frame x=%v: vertices %v", t, delta, jit, ctr, vs)
+			c18Turn(rec, vs, "loop/antipodal", desc, rnd)
+			c18Area(rec, vs, "loop/antipodal", desc, 2*math.Pi, 2*math.Pi, nil, nil, false)
 		case "longedge":
 			// k points spaced around a great circle, pushed to one side by a small amount:
 			// edges close to 180 degrees for k = 2 (plus one extra vertex) and hemisphere-like loops
